@@ -36,8 +36,21 @@ def my_quote(s: str) -> str:
     return "`" + s.replace("\\", "\\\\").replace("`", "\\`") + "`"
 
 
-def check(s: str, channel: str, compress: bool):
-    sig = f"C06:{channel}:{'compress' if compress else 'raw'}"
+def check(s: str, channel: str, compress: bool, prime: bool = False):
+    """prime: first run the same program under the *other* compression setting (result ignored):
+    the property must hold whatever was transpiled earlier in the same process."""
+    sig = f"C06:{channel}:{'compress' if compress else 'raw'}" + (":after-other-setting" if prime else "")
+    if prime:
+        try:
+            if channel == "in-lang":
+                c0 = harness.fresh_ctx()
+                c0.dictionary_compression = not compress
+                harness.run_program("qĖ", ctx=c0, stack=[s], dict_compress=not compress, budget=300_000)
+            else:
+                p0 = vyxal.elements.quotify(s, harness.fresh_ctx()) if channel == "q-run" else my_quote(s)
+                harness.run_program(p0 if channel != "unterminated" else p0[:-1], dict_compress=not compress, budget=300_000)
+        except Exception:  # noqa: BLE001
+            pass
     try:
         if channel == "q-run":
             ctx0 = harness.fresh_ctx()
@@ -72,10 +85,11 @@ def _do(rec, s, channel, compress, cls):
     if channel == "unterminated" and (s.endswith("\\") or s == ""):
         # dropping the closer after a trailing escaped backslash/empty string is C04's business; skip the odd cases
         pass
-    r = check(s, channel, compress)
-    rec.case(key=(s, channel, compress), nontrivial=bool(HARD & set(s)), cls=[cls, channel, "compress" if compress else "raw"])
+    prime = (len(s) + len(channel) + (1 if compress else 0)) % 2 == 1   # deterministic half of the cases
+    r = check(s, channel, compress, prime)
+    rec.case(key=(s, channel, compress, prime), nontrivial=bool(HARD & set(s)), cls=[cls, channel, "compress" if compress else "raw"] + (["primed with the other setting"] if prime else []))
     if r:
-        rec.fail(r[0], {"s": s, "channel": channel, "compress": compress}, r[1])
+        rec.fail(r[0], {"s": s, "channel": channel, "compress": compress, "prime": prime}, r[1])
 
 
 def _shard_exh(rec, arg):
@@ -131,4 +145,4 @@ def replay(case):
         return None
     if not all(c in CP for c in case["s"]):
         return None
-    return check(case["s"], case["channel"], bool(case["compress"]))
+    return check(case["s"], case["channel"], bool(case["compress"]), bool(case.get("prime")))
